@@ -22,6 +22,9 @@ pub enum Case {
         flips: Vec<bool>,
         final_newline: bool,
         trailing_newline: bool,
+        /// 0 = fresh directory; 1 = an older, longer output is present (build); 2 = same with --needed
+        #[serde(default)]
+        stale: u8,
     },
     /// `text` escaped by one write directive, surrounded by stored tags
     Escape {
@@ -33,6 +36,8 @@ pub enum Case {
         before: Vec<String>,
         crlf: bool,
         trailing_newline: bool,
+        #[serde(default)]
+        stale: u8,
     },
 }
 
@@ -94,6 +99,7 @@ fn gen_case(c: &mut Choices) -> Case {
             flips,
             final_newline: !c.chance(1, 4),
             trailing_newline,
+            stale: c.weighted(&[4, 1, 2]) as u8,
         }
     } else {
         let n = 1 + c.below(5);
@@ -126,13 +132,18 @@ fn gen_case(c: &mut Choices) -> Case {
             before,
             crlf,
             trailing_newline,
+            stale: c.weighted(&[4, 1, 2]) as u8,
         }
     }
 }
 
 fn opts(trailing_newline: bool) -> RunOpts {
+    opts_mode(trailing_newline, ModeS::Build)
+}
+
+fn opts_mode(trailing_newline: bool, mode: ModeS) -> RunOpts {
     RunOpts {
-        mode: ModeS::Build,
+        mode,
         trailing_newline,
         threads: 1,
         recursive: false,
@@ -141,9 +152,21 @@ fn opts(trailing_newline: bool) -> RunOpts {
     }
 }
 
+/// build `t.txt`, possibly over an older output that starts with the expected bytes and goes on
+/// (the result must not depend on it), in build or --needed mode
+fn run_over_stale(su: &super::common::Setup, want: &[u8], stale: u8, trailing_newline: bool) -> runner::Outcome {
+    if stale > 0 {
+        let mut old = want.to_vec();
+        old.extend_from_slice(b"an older, longer version\n");
+        let _ = std::fs::write(su.sc.root.join("t.txt"), old);
+    }
+    let mode = if stale == 2 { ModeS::Needed } else { ModeS::Build };
+    runner::run_free(&su.sc.root, &opts_mode(trailing_newline, mode))
+}
+
 pub fn check(case: &Case, st: &mut Stats) -> Check {
     match case {
-        Case::Identity { lines, crlf, flips, final_newline, trailing_newline } => {
+        Case::Identity { lines, crlf, flips, final_newline, trailing_newline, stale } => {
             let le = if *crlf { "\r\n" } else { "\n" };
             let other = if *crlf { "\n" } else { "\r\n" };
             let mut src = String::new();
@@ -163,7 +186,7 @@ pub fn check(case: &Case, st: &mut Stats) -> Check {
             p.put("t.txt.txtpp", src.clone());
             let su = materialise(&p);
             su.write(&p);
-            let out = runner::run_free(&su.sc.root, &opts(*trailing_newline));
+            let out = run_over_stale(&su, want.as_bytes(), *stale, *trailing_newline);
             if lines.iter().any(|l| l.contains("TXTPP") || l.contains("TAG") || l.contains("T1")) {
                 st.nontrivial_hash(&(src.clone(), *trailing_newline));
             }
@@ -188,7 +211,7 @@ pub fn check(case: &Case, st: &mut Stats) -> Check {
             }
             Ok(())
         }
-        Case::Escape { text, indent, prefix, tags, before, crlf, trailing_newline } => {
+        Case::Escape { text, indent, prefix, tags, before, crlf, trailing_newline, stale } => {
             let le = if *crlf { "\r\n" } else { "\n" };
             let mut src = String::new();
             let mut want = String::new();
@@ -250,7 +273,7 @@ pub fn check(case: &Case, st: &mut Stats) -> Check {
             p.put("t.txt.txtpp", src.clone());
             let su = materialise(&p);
             su.write(&p);
-            let out = runner::run_free(&su.sc.root, &opts(*trailing_newline));
+            let out = run_over_stale(&su, want.as_bytes(), *stale, *trailing_newline);
             let lookalike = text.iter().any(|l| l.contains("TXTPP#") || tags.iter().any(|(n, _)| l.contains(n.as_str())));
             if lookalike {
                 st.nontrivial_hash(&(src.clone(), *trailing_newline));
@@ -290,7 +313,7 @@ pub fn check(case: &Case, st: &mut Stats) -> Check {
 fn reduce(case: &Case) -> Vec<Case> {
     let mut v = vec![];
     match case {
-        Case::Identity { lines, crlf, flips, final_newline, trailing_newline } => {
+        Case::Identity { lines, crlf, flips, final_newline, trailing_newline, stale } => {
             for i in 0..lines.len() {
                 let mut l = lines.clone();
                 l.remove(i);
@@ -298,10 +321,10 @@ fn reduce(case: &Case) -> Vec<Case> {
                 if i < f.len() {
                     f.remove(i);
                 }
-                v.push(Case::Identity { lines: l, crlf: *crlf, flips: f, final_newline: *final_newline, trailing_newline: *trailing_newline });
+                v.push(Case::Identity { lines: l, crlf: *crlf, flips: f, final_newline: *final_newline, trailing_newline: *trailing_newline, stale: *stale });
             }
         }
-        Case::Escape { text, indent, prefix, tags, before, crlf, trailing_newline } => {
+        Case::Escape { text, indent, prefix, tags, before, crlf, trailing_newline, stale } => {
             for i in 0..text.len() {
                 if text.len() > 1 {
                     let mut t = text.clone();
@@ -309,16 +332,16 @@ fn reduce(case: &Case) -> Vec<Case> {
                     if i == 0 {
                         t[0] = t[0].trim_start().to_string();
                     }
-                    v.push(Case::Escape { text: t, indent: indent.clone(), prefix: prefix.clone(), tags: tags.clone(), before: before.clone(), crlf: *crlf, trailing_newline: *trailing_newline });
+                    v.push(Case::Escape { text: t, indent: indent.clone(), prefix: prefix.clone(), tags: tags.clone(), before: before.clone(), crlf: *crlf, trailing_newline: *trailing_newline, stale: *stale });
                 }
             }
             for i in 0..tags.len() {
                 let mut t = tags.clone();
                 t.remove(i);
-                v.push(Case::Escape { text: text.clone(), indent: indent.clone(), prefix: prefix.clone(), tags: t, before: before.clone(), crlf: *crlf, trailing_newline: *trailing_newline });
+                v.push(Case::Escape { text: text.clone(), indent: indent.clone(), prefix: prefix.clone(), tags: t, before: before.clone(), crlf: *crlf, trailing_newline: *trailing_newline, stale: *stale });
             }
             if !before.is_empty() {
-                v.push(Case::Escape { text: text.clone(), indent: indent.clone(), prefix: prefix.clone(), tags: tags.clone(), before: vec![], crlf: *crlf, trailing_newline: *trailing_newline });
+                v.push(Case::Escape { text: text.clone(), indent: indent.clone(), prefix: prefix.clone(), tags: tags.clone(), before: vec![], crlf: *crlf, trailing_newline: *trailing_newline, stale: *stale });
             }
         }
     }
@@ -330,7 +353,7 @@ impl Prop for C16 {
         PropMeta {
             id: "C16",
             level: "exploration",
-            rule: "two round trips over an alphabet of directive and tag look-alikes (TXTPP#run, -TXTPP#, TXTPP#include a.txt, tag names in use, prefixes, blanks, non-ASCII), LF/CRLF incl. mixed, with/without final newline, option on/off. Identity: lines made ordinary by construction (no line has the directive shape of the property statement) must come out joined by the file's line ending. Escape: any line sequence (first without leading blank, none with trailing blank) written as one write directive with generated indent and prefix, with 0-2 stored tags whose names may occur in the text, must come out line for line (indented), never executed, never tag-substituted; the stored tags are consumed by trailer lines. Non-trivial = text contains TXTPP or a tag name; distinct by (source, option).",
+            rule: "two round trips over an alphabet of directive and tag look-alikes (TXTPP#run, -TXTPP#, TXTPP#include a.txt, tag names in use, prefixes, blanks, non-ASCII), LF/CRLF incl. mixed, with/without final newline, option on/off, from a fresh directory or over an older, longer output (build and --needed). Identity: lines made ordinary by construction (no line has the directive shape of the property statement) must come out joined by the file's line ending. Escape: any line sequence (first without leading blank, none with trailing blank) written as one write directive with generated indent and prefix, with 0-2 stored tags whose names may occur in the text, must come out line for line (indented), never executed, never tag-substituted; the stored tags are consumed by trailer lines. Non-trivial = text contains TXTPP or a tag name; distinct by (source, option).",
             assumptions: vec!["expected bytes are computed by construction from the generated pieces, not by the reference model"],
             hang_is_violation: false,
             needs_cli: false,
